@@ -9129,7 +9129,12 @@ let metric m meth =
                                                                     ('e'::('x'::('t'::('r'::('a'::('_'::('c'::('o'::('n'::('s'::('t'::('r'::('a'::('i'::('n'::('t'::('_'::('r'::('e'::('p'::('r'::('e'::('s'::('e'::('n'::('t'::('a'::('t'::('i'::('v'::('e'::('n'::('e'::('s'::('s'::[])))))))))))))))))))))))))))))))))))
                                                                     then 
                                                                     let l =
-                                                                    fold_left
+                                                                    filter
+                                                                    (fun s ->
+                                                                    list_existsb_eq
+                                                                    s
+                                                                    (fnames m))
+                                                                    (fold_left
                                                                     (fun acc c ->
                                                                     fold_left
                                                                     (fun a s ->
@@ -9138,7 +9143,7 @@ let metric m meth =
                                                                     (ctc_features
                                                                     c.c_ast)
                                                                     acc)
-                                                                    m.ctcs []
+                                                                    m.ctcs [])
                                                                     in
                                                                     ok
                                                                     (mk meth
